@@ -602,6 +602,7 @@ func Run(sc *Script, verbose bool) (x *Exec, err error) {
 		}
 		w.tracef("step %d: %+v", i, *st)
 		w.curOp = st.Op
+		w.handlerYield.Store(0)
 		if x.client(st.C).Dead && st.Op != "Sleep" && st.Op != "PeerData" && st.Op != "CloseServer" {
 			continue
 		}
